@@ -1,6 +1,6 @@
 #!/bin/sh
 # bin/cleansweep.sh <seed> [n]: every family on the unchanged tree with a fresh seed; any rejection is a modelling / generator error
 s=$1; n=${2:-300}
-for f in core awaiters life fail restart timeout tmodrop timers tree registry stream broker mix; do
+for f in core awaiters life fail restart timeout tmodrop rstimers timers tree registry stream broker mix; do
   echo -n "$f-$s: "; /verif/bin/explore.py $f $s $n 2>&1 | cut -c1-300 | head -8
 done
